@@ -74,65 +74,8 @@ def eval_bool(t, size_term, size_value):
     return None
 
 
-def run(ck, F):
-    ck.explanation = (
-        'Every convenience operation of the interface is evaluated symbolically on an arbitrary object (virtual '
-        'primitives stay symbolic) and compared with its defining term; boolean predicates over a size are decided '
-        'by finite-case evaluation over the sign domain {0, positive}, so any spelling of `non-empty` is accepted '
-        'and only the truth table matters.  Equalities are evaluated to conjunctions of identity comparisons.')
-    S = Sym(F, opaque=contracts.default_opaque(F), max_depth=24)
-    R = ck.rule('C15.derived-term', 'a derived operation evaluates to its defining term over the primitive accessors', floor=40)
-    R_tt = ck.rule('C15.truth-table', 'size predicates have the documented truth table (E1 over size = 0 / positive)', floor=2)
-
-    def fns(cls_prefix, name, nparams=None, const=True):
-        out = []
-        for f in F.fn.values():
-            par = f.get('parent') or ''
-            if f['name'] == name and (par == cls_prefix or par.startswith(cls_prefix + '<')) and not f.get('implicit'):
-                if nparams is not None and len(f['params']) != nparams:
-                    continue
-                out.append(f)
-        return sorted(out, key=lambda f: f['id'])
-
-    def single(f, args=None):
-        try:
-            outs = S.run(f['id'], this=THIS, args=args)
-        except Unsupported as e:
-            raise AnalysisBroken(f'{f["id"]}: outside the evaluator language: {e}')
-        rets = [(st, v) for st, k, v in outs if k == 'return']
-        if len(outs) != 1 or len(rets) != 1:
-            return None, None
-        return rets[0]
-
-    def expect(cls, name, want, nparams=0, floor_one=True, transform=None):
-        fl = fns(cls, name, nparams)
-        if not fl and floor_one:
-            raise AnalysisBroken(f'anchor vanished: {cls}::{name}')
-        for f in fl:
-            st, v = single(f)
-            got = None
-            if st is not None:
-                got = mname(value_of(v, st))
-            inst = contracts.short(f['parent']) + '::' + name
-            ck.check(R, inst, got == want, f'{f["id"]} evaluates to `{got}`; it is defined as `{want}`', loc=f['loc'], fn=f['id'],
-                     detail={'term': got})
-
-    # ---- Sequence<T>
-    expect('ipr::Sequence', 'begin', 'Iterator{index=0, seq=&this}')
-    expect('ipr::Sequence', 'end', 'Iterator{index=this.size(), seq=&this}')
-    expect('ipr::Sequence', 'position', 'Iterator{index=P0, seq=&this}', nparams=1)
-    for f in fns('ipr::Sequence', 'empty', 0):
-        st, v = single(f)
-        inst = contracts.short(f['parent']) + '::empty'
-        if st is None:
-            ck.fail(R_tt, inst, 'empty() is not a single expression', loc=f['loc'], fn=f['id'])
-            continue
-        size = ('vcall', [x for x in [v] if True] and None, None, None)
-        # find the size() call inside the term
-        sz = find_call(v, 'size')
-        tt = None if sz is None else (eval_bool(v, sz, 0), eval_bool(v, sz, 1))
-        ck.check(R_tt, inst, tt == (1, 0), f'{f["id"]}: truth table over size()=0/positive is {tt}, expected (true, false)',
-                 loc=f['loc'], fn=f['id'], detail={'term': mname(v)})
+def iterator_rule(ck, F, S, R):
+    """Sequence<T>::Iterator: stepping, dereference and equality agree with positional access; borrowed by C14."""
     # ---- Iterator
     it = 'ipr::Sequence'
     for f in [f for f in F.fn.values() if (f.get('parent') or '').startswith('ipr::Sequence<') and f['parent'].endswith('::Iterator')
@@ -196,6 +139,69 @@ def run(ck, F):
             okeff = linear_form(idx_after) == {('fld', THIS, 'index'): 1, None: 1 if name == 'operator++' else -1}
         ck.check(R, inst, okv and okeff, f'{f["id"]}: yields `{got}`, index becomes `{eff}`; defined as `{want[0]}` / `{want[1]}`',
                  loc=f['loc'], fn=f['id'])
+
+
+
+def run(ck, F):
+    ck.explanation = (
+        'Every convenience operation of the interface is evaluated symbolically on an arbitrary object (virtual '
+        'primitives stay symbolic) and compared with its defining term; boolean predicates over a size are decided '
+        'by finite-case evaluation over the sign domain {0, positive}, so any spelling of `non-empty` is accepted '
+        'and only the truth table matters.  Equalities are evaluated to conjunctions of identity comparisons.')
+    S = Sym(F, opaque=contracts.default_opaque(F), max_depth=24)
+    R = ck.rule('C15.derived-term', 'a derived operation evaluates to its defining term over the primitive accessors', floor=40)
+    R_tt = ck.rule('C15.truth-table', 'size predicates have the documented truth table (E1 over size = 0 / positive)', floor=2)
+
+    def fns(cls_prefix, name, nparams=None, const=True):
+        out = []
+        for f in F.fn.values():
+            par = f.get('parent') or ''
+            if f['name'] == name and (par == cls_prefix or par.startswith(cls_prefix + '<')) and not f.get('implicit'):
+                if nparams is not None and len(f['params']) != nparams:
+                    continue
+                out.append(f)
+        return sorted(out, key=lambda f: f['id'])
+
+    def single(f, args=None):
+        try:
+            outs = S.run(f['id'], this=THIS, args=args)
+        except Unsupported as e:
+            raise AnalysisBroken(f'{f["id"]}: outside the evaluator language: {e}')
+        rets = [(st, v) for st, k, v in outs if k == 'return']
+        if len(outs) != 1 or len(rets) != 1:
+            return None, None
+        return rets[0]
+
+    def expect(cls, name, want, nparams=0, floor_one=True, transform=None):
+        fl = fns(cls, name, nparams)
+        if not fl and floor_one:
+            raise AnalysisBroken(f'anchor vanished: {cls}::{name}')
+        for f in fl:
+            st, v = single(f)
+            got = None
+            if st is not None:
+                got = mname(value_of(v, st))
+            inst = contracts.short(f['parent']) + '::' + name
+            ck.check(R, inst, got == want, f'{f["id"]} evaluates to `{got}`; it is defined as `{want}`', loc=f['loc'], fn=f['id'],
+                     detail={'term': got})
+
+    # ---- Sequence<T>
+    expect('ipr::Sequence', 'begin', 'Iterator{index=0, seq=&this}')
+    expect('ipr::Sequence', 'end', 'Iterator{index=this.size(), seq=&this}')
+    expect('ipr::Sequence', 'position', 'Iterator{index=P0, seq=&this}', nparams=1)
+    for f in fns('ipr::Sequence', 'empty', 0):
+        st, v = single(f)
+        inst = contracts.short(f['parent']) + '::empty'
+        if st is None:
+            ck.fail(R_tt, inst, 'empty() is not a single expression', loc=f['loc'], fn=f['id'])
+            continue
+        size = ('vcall', [x for x in [v] if True] and None, None, None)
+        # find the size() call inside the term
+        sz = find_call(v, 'size')
+        tt = None if sz is None else (eval_bool(v, sz, 0), eval_bool(v, sz, 1))
+        ck.check(R_tt, inst, tt == (1, 0), f'{f["id"]}: truth table over size()=0/positive is {tt}, expected (true, false)',
+                 loc=f['loc'], fn=f['id'], detail={'term': mname(v)})
+    iterator_rule(ck, F, S, R)
 
     # ---- helpers over elements()
     for cls in ('ipr::Product', 'ipr::Sum', 'ipr::Expr_list', 'ipr::Scope', 'ipr::Parameter_list'):
